@@ -112,7 +112,14 @@ impl W {
             .name("rig-worker-chan".into())
             .stack_size(8 << 20)
             .spawn(move || {
-                quiet_logs_silently();
+                // debugging aid: CW_LOG=<file> [CW_LOG_LEVEL=trace] turns the worker's own logs on
+                match std::env::var("CW_LOG") {
+                    Ok(path) => {
+                        let level = std::env::var("CW_LOG_LEVEL").unwrap_or_else(|_| "trace".into());
+                        let _ = sozu_command_lib::logging::setup_logging(&format!("file://{path}"), false, None, None, None, &level, "CW");
+                    }
+                    Err(_) => quiet_logs_silently(),
+                }
                 let r = catch_unwind(AssertUnwindSafe(|| {
                     match Server::try_new_from_config(cmd_worker, scm_worker, server_config, ConfigState::new().produce_initial_state(), false) {
                         Ok(mut server) => {
@@ -308,9 +315,21 @@ impl W {
                 // fingerprint: a request was sent whose answer cannot fit the ceiling:
                 // send_queue retries it for ever
                 let over = !self.unanswerable.is_empty();
-                let class = if over { "worker-wedged-response-over-ceiling" } else { "worker-wedged" };
+                let class = if over { "worker-wedged-after-over-ceiling-response" } else { "worker-wedged" };
                 let w = silence_window();
                 CONFIRMED.store(true, std::sync::atomic::Ordering::Relaxed);
+                if std::env::var("CW_LOG").is_ok() {
+                    let (mut inq, mut outq): (libc::c_int, libc::c_int) = (0, 0);
+                    unsafe {
+                        libc::ioctl(self.sock.as_raw_fd(), libc::FIONREAD, &mut inq);
+                        libc::ioctl(self.sock.as_raw_fd(), libc::TIOCOUTQ, &mut outq);
+                    }
+                    if std::env::var("CW_HANG").is_ok() {
+                        eprintln!("WEDGE-PID {}", std::process::id());
+                        std::thread::sleep(Duration::from_secs(40));
+                    }
+                    eprintln!("WEDGE-DUMP harness rx buffered {} B, socket unread {} B, our unsent/unread-by-worker {} B", self.rx.len(), inq, outq);
+                }
                 oracle.push((class.into(), format!(
                     "the worker answered neither of two Status probes, each awaited for {w:?} ({} request(s) unanswered, oldest id {} B, ceiling {})",
                     self.outstanding.len(), self.outstanding.front().and_then(|s| self.idlen.get(s)).copied().unwrap_or(0), self.max)));
@@ -383,7 +402,11 @@ impl Area for ChanWorker {
         small.push("wstop".into());
         // a request that fits the ceiling whose answer does not (id within ~20 bytes of max)
         let over = vec!["wstart 1000 2000 1".to_string(), "wreq 0 1980".into(), "wstop".into()];
-        vec![demo, small, over]
+        // the same with the worker left alone long enough to handle the request before the probe
+        // arrives: the answer (and its failure notice) cannot fit and is dropped; the worker must
+        // go back to polling instead of spinning on a WRITABLE interest with nothing to write
+        let over_alone = vec!["wstart 1000 2000 1".to_string(), "wreq 0 1980".into(), "wpause 60".into(), "wstop".into()];
+        vec![demo, small, over, over_alone]
     }
     fn gen(&self, rng: &mut Rng, thorough: bool) -> Vec<String> {
         let (buf, max, snd) = if thorough && rng.chance(1, 25) { (1_000_000, 2_000_000, 1) } else { *rng.pick(CFGS) };
@@ -439,7 +462,7 @@ impl Area for ChanWorker {
             w.first() == Some(&"wreq") && w.get(2).and_then(|l| l.parse::<usize>().ok()).is_some_and(|l| l + 32 > max)
         });
         if over && impl_out.iter().any(|l| l.starts_with("wedged")) {
-            "worker-wedged-response-over-ceiling".into()
+            "worker-wedged-after-over-ceiling-response".into()
         } else {
             "model-mismatch".into()
         }
@@ -496,6 +519,10 @@ impl Area for ChanWorker {
                     }
                     Err(_) => "bad-op".into(),
                 },
+                ("wpause", Some(_)) if ws.len() == 2 => {
+                    std::thread::sleep(Duration::from_millis(ws[1].parse::<u64>().unwrap_or(0).min(1000)));
+                    "paused".into()
+                }
                 ("wstop", Some(g)) if ws.len() == 1 => g.stop(&mut run.oracle),
                 _ => "bad-op".into(),
             };
